@@ -7,9 +7,10 @@
      subject_listed        : the subject is one of the successors
    Go's map iteration orders are the [ords]/[ord] arguments; the theorems hold for all of
    them ([same_elements]/[reorders] only say that an iteration visits the keys of the map). *)
-From Coq Require Import List Arith Bool.
+From Coq Require Import List Arith Bool NArith.
 Import ListNotations.
 From Oras Require Import Model.OciGC Proofs.OciGC.
+From Oras Require Model.GraphMem Proofs.GraphMem Proofs.OciGCGraph.
 
 (* ---- GC ---- *)
 
@@ -52,6 +53,26 @@ Theorem C09_gc_exact :
 Proof. exact gc_exact_final. Qed.
 Print Assumptions C09_gc_exact.
 
+(* ... and the by-digest references after GC (the code as it is, kl = true): a descriptor is
+   resolvable by digest afterwards iff it carries a tag, or it was resolvable by digest
+   before and is live (swept content is never left listed; live content is never unlisted),
+   or -- the one exception, found by the long-history stream -- it was resolvable by digest
+   before, is a layer/config whose content is NOT stored and a live manifest lists it
+   (graph.Exists is true for such leaves: IndexAll records them by reference; reachable only
+   from an index.json that already named missing content, i.e. after AutoSaveIndex was off) *)
+Theorem C09_gc_digest_refs :
+  forall succ subject manifest, acyclic succ -> subject_listed succ subject ->
+  forall ords st, same_elements ords (candidates (idx st)) ->
+  let st' := fst (gc succ subject manifest cfg_fixed true ords st) in
+  forall d r, In (RDig d, r) (idx st') <->
+    d = r /\ ((exists t, In (RTag t, r) (idx st)) \/
+              ((exists d', In (RDig d', r) (idx st)) /\
+               (Live succ subject manifest st r \/
+                (~ In r (blobs st) /\ manifest r = false /\
+                 exists p, Live succ subject manifest st p /\ In r (succ p))))).
+Proof. exact gc_digest_refs_final. Qed.
+Print Assumptions C09_gc_digest_refs.
+
 (* Before the repair (F13) one referrer pass made the result depend on the map order. *)
 Theorem C09_gc_order_refuted :
   let st := run_w cfg_fixed [OPush 0; OPush 1; OPush 5; OPush 6; OPush 7; OTag 1 0] in
@@ -72,6 +93,60 @@ Theorem C09_gc_reopen :
   (forall x, In x (gnodes st2) <-> In x (gnodes st')).
 Proof. exact gc_reopen_final. Qed.
 Print Assumptions C09_gc_reopen.
+
+(* GC whose context is found done in the sweep, after [k] entries of the directory order
+   [order] (the sweep tests the context before every entry; the index is rebuilt and saved
+   before the sweep): the references and the graph are those of a complete GC, no live blob is
+   removed, exactly the garbage among the handled entries is removed, the live set is the one
+   before.  For every order of the directory, every k, every iteration order. *)
+Theorem C09_gc_cancel_safe :
+  forall succ subject manifest, acyclic succ -> subject_listed succ subject ->
+  forall kl ords order k st, same_elements ords (candidates (idx st)) ->
+  exists st',
+    gc_cancel succ subject manifest cfg_fixed kl ords order k st = (st', ECanceled) /\
+    idx st' = idx (fst (gc succ subject manifest cfg_fixed kl ords st)) /\
+    gnodes st' = gnodes (fst (gc succ subject manifest cfg_fixed kl ords st)) /\
+    (forall x, In x (gnodes st') <-> Live succ subject manifest st x) /\
+    (forall x, In x (blobs st') <->
+               In x (blobs st) /\ (Live succ subject manifest st x \/ swept_blob x (firstn k order) = false)) /\
+    (forall s, In s (strays st') <->
+               In s (strays st) /\ (s_known s && s_valid s = false \/
+                                    swept_stray (s_id s) (firstn k order) = false)) /\
+    autogc st' = autogc st /\
+    (forall x, Live succ subject manifest st' x <-> Live succ subject manifest st x).
+Proof. exact gc_cancel_final. Qed.
+Print Assumptions C09_gc_cancel_safe.
+
+(* a GC after a cancelled GC ends where the complete GC would have ended *)
+Theorem C09_gc_resume :
+  forall succ subject manifest, acyclic succ -> subject_listed succ subject ->
+  forall kl ords order k st ords2,
+  same_elements ords (candidates (idx st)) ->
+  let sc := fst (gc_cancel succ subject manifest cfg_fixed kl ords order k st) in
+  same_elements ords2 (candidates (idx sc)) ->
+  let s1 := fst (gc succ subject manifest cfg_fixed kl ords st) in
+  let s2 := fst (gc succ subject manifest cfg_fixed kl ords2 sc) in
+  snd (gc succ subject manifest cfg_fixed kl ords2 sc) = Ok /\
+  (forall x, In x (blobs s2) <-> In x (blobs s1)) /\
+  (forall x, In x (gnodes s2) <-> In x (gnodes s1)) /\
+  (forall t n, In (RTag t, n) (idx s2) <-> In (RTag t, n) (idx s1)).
+Proof. exact gc_resume_final. Qed.
+Print Assumptions C09_gc_resume.
+
+(* GC is idempotent: a second GC removes nothing and keeps graph, tags and stray files *)
+Theorem C09_gc_idempotent :
+  forall succ subject manifest, acyclic succ -> subject_listed succ subject ->
+  forall kl ords st ords2,
+  same_elements ords (candidates (idx st)) ->
+  let s1 := fst (gc succ subject manifest cfg_fixed kl ords st) in
+  same_elements ords2 (candidates (idx s1)) ->
+  let s2 := fst (gc succ subject manifest cfg_fixed kl ords2 s1) in
+  (forall x, In x (blobs s2) <-> In x (blobs s1)) /\
+  (forall x, In x (gnodes s2) <-> In x (gnodes s1)) /\
+  (forall t n, In (RTag t, n) (idx s2) <-> In (RTag t, n) (idx s1)) /\
+  (forall s, In s (strays s2) <-> In s (strays s1)).
+Proof. exact gc_idempotent_final. Qed.
+Print Assumptions C09_gc_idempotent.
 
 (* ---- Delete ---- *)
 
@@ -98,7 +173,17 @@ Theorem C09_delete_exact :
     (forall r n, In (r, n) (idx st) -> ~ Gone succ subject manifest st x n -> In (r, n) (idx st')) /\
     (forall t n, In (RTag t, n) (idx st') <-> In (RTag t, n) (idx st) /\ n <> x) /\
     (forall r, ~ In (r, x) (idx st')) /\
-    strays st' = strays st /\ autogc st' = autogc st.
+    strays st' = strays st /\ autogc st' = autogc st /\
+    (* exactly which by-digest references are new (when they name their own content, as in every
+       reachable state): those of the surviving manifests of the graph that had predecessors,
+       lost all of them to the cascade and had no by-digest reference *)
+    ((forall d n, In (RDig d, n) (idx st) -> d = n) ->
+     forall d, ~ In (RDig d, d) (idx st) ->
+       (In (RDig d, d) (idx st') <->
+        manifest d = true /\ In d (gnodes st) /\ ~ Gone succ subject manifest st x d /\
+        (exists p, In p (gnodes st) /\ In d (succ p)) /\
+        (forall p, In p (gnodes st) -> In d (succ p) -> Gone succ subject manifest st x p) /\
+        (forall m, ~ In (RDig d, m) (idx st)))).
 Proof. exact delete_exact_final. Qed.
 Print Assumptions C09_delete_exact.
 
@@ -164,7 +249,8 @@ Print Assumptions C09_delete_absent.
 
 (* Every state the repaired code can reach with ANY iteration orders of Delete and GC
    ([Hist]; [any] = true also allows reopening the store at arbitrary points, also on an
-   index.json that names only the tagged descriptors: OReopen / OForeign) is well-formed
+   index.json that names only the tagged descriptors: OReopen / OForeign, and a GC
+   cancelled in the sweep for every directory order and every k) is well-formed
    (the hypothesis of C09_delete_exact) and free of stale tag-set entries; unless the store
    is reopened at an arbitrary point every stored blob is a graph node, so [Gone] and
    C09_delete_exact speak about the storage.  After an arbitrary reopen blobs that
@@ -263,6 +349,180 @@ Theorem C09_delete_subject_and_entry_refuted :
 Proof. exact delete_subject_and_entry. Qed.
 Print Assumptions C09_delete_subject_and_entry_refuted.
 
+(* ---- end to end ---- *)
+
+(* the outcome of Delete (AutoGC) and of GC does not depend on Go's map iteration orders *)
+Theorem C09_order_independent :
+  forall succ subject manifest, acyclic succ -> subject_listed succ subject ->
+  (forall st x, wf st -> autogc st = true -> In x (blobs st) ->
+     forall o1 o2, reorders o1 -> reorders o2 ->
+     let a := fst (delete succ subject manifest cfg_fixed o1 st x) in
+     let b := fst (delete succ subject manifest cfg_fixed o2 st x) in
+     (forall y, In y (blobs a) <-> In y (blobs b)) /\ (forall y, In y (gnodes a) <-> In y (gnodes b)) /\
+     (forall t n, In (RTag t, n) (idx a) <-> In (RTag t, n) (idx b))) /\
+  (forall kl st o1 o2, same_elements o1 (candidates (idx st)) -> same_elements o2 (candidates (idx st)) ->
+     let a := fst (gc succ subject manifest cfg_fixed kl o1 st) in
+     let b := fst (gc succ subject manifest cfg_fixed kl o2 st) in
+     (forall y, In y (blobs a) <-> In y (blobs b)) /\ (forall y, In y (gnodes a) <-> In y (gnodes b)) /\
+     (forall t n, In (RTag t, n) (idx a) <-> In (RTag t, n) (idx b))).
+Proof. exact order_independent_final. Qed.
+Print Assumptions C09_order_independent.
+
+(* "keep live data": a stored descriptor that carries a tag survives, with its tag, every
+   Delete of another descriptor (AutoGC on or off, target stored or not, every iteration
+   order) and, with everything reachable from it, every GC -- complete or cancelled *)
+Theorem C09_tagged_kept :
+  forall succ subject manifest, acyclic succ -> subject_listed succ subject ->
+  forall st n t, wf st -> In (RTag t, n) (idx st) -> In n (blobs st) ->
+  (forall x ord, reorders ord -> x <> n ->
+     let st' := fst (delete succ subject manifest cfg_fixed ord st x) in
+     In n (blobs st') /\ In (RTag t, n) (idx st')) /\
+  (forall kl ords order k, same_elements ords (candidates (idx st)) ->
+     let s1 := fst (gc succ subject manifest cfg_fixed kl ords st) in
+     let s2 := fst (gc_cancel succ subject manifest cfg_fixed kl ords order k st) in
+     forall y, Reach succ (blobs st) n y ->
+       In y (blobs s1) /\ In y (blobs s2) /\ In (RTag t, n) (idx s1) /\ In (RTag t, n) (idx s2)).
+Proof. exact tagged_kept_final. Qed.
+Print Assumptions C09_tagged_kept.
+
+(* ---- persistence: index.json, AutoSaveIndex, SaveIndex, a new Store on the directory ---- *)
+
+(* The order of effects the persistence model relies on, read off the call sequences that the
+   translator regenerates from Store.GC and Store.delete on every run (Generated/GC09.v):
+   GC writes index.json before it removes the first blob and tests the context before every
+   removal; delete() writes index.json before it unlinks the blob.  The model's [pstep] is
+   configured by these three booleans, the theorems below use them as lemmas: a reordering of
+   the Go source changes the model and breaks the proofs. *)
+Theorem C09_effect_order :
+  gc_saves_before_sweep = true /\ gc_tests_ctx_before_remove = true /\ delete_saves_before_unlink = true.
+Proof. exact effect_order_final. Qed.
+Print Assumptions C09_effect_order.
+
+(* loadIndex after saveIndex gives back the reference map (minus stale tag-set entries) *)
+Theorem C09_index_load_save :
+  forall ix e, refs_ok ix ->
+  (In e (load_form (save_form ix)) <-> In e ix /\ nonstale e = true).
+Proof. exact load_save_final. Qed.
+Print Assumptions C09_index_load_save.
+
+(* As long as AutoSaveIndex is never switched off, after every history of Push / Tag / Untag /
+   Delete / GC (complete or cancelled) / AutoGC / stray files / SaveIndex / reopen / foreign
+   index, index.json holds exactly what saveIndex writes for the current reference map: Delete
+   and GC never leave index.json behind the memory *)
+Theorem C09_index_json_current :
+  forall succ subject manifest, acyclic succ -> subject_listed succ subject ->
+  forall kl ops, Forall (fun o => o <> PAutoSave false) ops ->
+  let p := fold_left (fun p o => fst (pstep succ subject manifest cfg_fixed kl p o)) ops pinit in
+  (forall e, In e (disk p) <-> In e (save_form (idx (mem p)))) /\
+  refs_ok (idx (mem p)) /\ autosave p = true.
+Proof. exact index_json_current_final. Qed.
+Print Assumptions C09_index_json_current.
+
+(* every state of every history of the persistence layer -- complete and cancelled GCs,
+   SaveIndex, AutoSaveIndex on or off, reloads from whatever index.json holds, failed pushes --
+   is well-formed (the hypothesis of C09_delete_exact / C09_tagged_kept) and [is_tagged] means
+   "carries a tag" there; the one modelled operation after which this fails is PDeleteAlt
+   (Delete of a layer with the descriptor Resolve(<digest>) returns: the graph keeps a node
+   without content, C09_delete_alt_stale_node) -- run and compared, outside these theorems *)
+Theorem C09_persist_histories :
+  forall succ subject manifest, acyclic succ -> subject_listed succ subject ->
+  forall kl ops, Forall (fun o => forall n, o <> PDeleteAlt n) ops ->
+  let p := fold_left (fun p o => fst (pstep succ subject manifest cfg_fixed kl p o)) ops pinit in
+  wf (mem p) /\ (forall n, is_tagged (mem p) n = true <-> exists t, In (RTag t, n) (idx (mem p))).
+Proof. exact phistories_final. Qed.
+Print Assumptions C09_persist_histories.
+
+Theorem C09_delete_alt_stale_node :
+  let p := prun_w [PO (OPush 0); PO (OPush 1); PDeleteAlt 0] in
+  blobs (mem p) = [1] /\ In 0 (gnodes (mem p)) /\ ~ In 0 (blobs (mem p)) /\
+  gnodes (mem (prun_w [PO (OPush 0); PO (OPush 1); PO (OTag 1 0); PDeleteAlt 0; PO OGC])) = [1] /\
+  snd (pstep succ_w subject_w manifest_w cfg_fixed true (prun_w [PO (OPush 0); PO (OPush 1)]) (PDeleteAlt 0)) = Ok /\
+  snd (pstep succ_w subject_w manifest_w cfg_fixed true p (PDeleteAlt 0)) = ENotFound.
+Proof. exact delete_alt_stale_node. Qed.
+Print Assumptions C09_delete_alt_stale_node.
+
+(* the same as an invariant of one step (any state with a current index.json) *)
+Theorem C09_index_json_step :
+  forall succ subject manifest, acyclic succ -> subject_listed succ subject ->
+  forall kl p o, pstate_ok p -> o <> PAutoSave false ->
+  pstate_ok (fst (pstep succ subject manifest cfg_fixed kl p o)).
+Proof. exact index_json_step_final. Qed.
+Print Assumptions C09_index_json_step.
+
+(* with a current index.json a new Store on the directory is the OReopen of the theorems
+   (C09_gc_reopen, C09_histories): same storage, references, graph *)
+Theorem C09_reload_is_reopen :
+  forall succ subject manifest, acyclic succ -> subject_listed succ subject ->
+  forall kl p, pstate_ok p ->
+  let a := mem (fst (pstep succ subject manifest cfg_fixed kl p (PO OReopen))) in
+  let b := fst (step succ subject manifest cfg_fixed kl (mem p) OReopen) in
+  blobs a = blobs b /\ (forall e, In e (idx a) <-> In e (idx b)) /\
+  (forall x, In x (gnodes a) <-> In x (gnodes b)) /\
+  strays a = strays b /\ autogc a = autogc b.
+Proof. exact reload_is_reopen_final. Qed.
+Print Assumptions C09_reload_is_reopen.
+
+(* the hypothesis is needed: with AutoSaveIndex off and no SaveIndex a restart forgets the tag,
+   and the next GC sweeps the manifest (documented: "unsaved index will be lost"); SaveIndex
+   before the restart keeps both *)
+Theorem C09_unsaved_index_refuted :
+  let ops := [PO (OPush 0); PO (OPush 1); PO (OTag 1 0); PO OReopen; PO OGC] in
+  blobs (mem (prun_w (PAutoSave false :: ops))) = [] /\
+  lookup (RTag 0) (idx (mem (prun_w (PAutoSave false :: ops)))) = None /\
+  blobs (mem (prun_w ops)) = [1; 0] /\
+  lookup (RTag 0) (idx (mem (prun_w ops))) = Some 1 /\
+  blobs (mem (prun_w (PAutoSave false :: [PO (OPush 0); PO (OPush 1); PO (OTag 1 0); PSave; PO OReopen; PO OGC]))) = [1; 0].
+Proof. exact unsaved_index_lost. Qed.
+Print Assumptions C09_unsaved_index_refuted.
+
+(* ---- tables regenerated from the source ---- *)
+
+(* The case lists of the media-type switches of manifestutil.Subject, registry.Referrers and
+   content.Successors and of descriptor.IsManifest (Generated/GC09.v) are what the model
+   assumes: Subject and Referrers accept the same media types (the model has one subject
+   function for both), exactly the manifest media types have successors, every media type
+   with a subject is a manifest; kinds 0..5 = blob, image, docker manifest, index, docker
+   manifest list, artifact manifest.  The driver masks the subject of a node by
+   [kind_has_subject], so the model follows the switch. *)
+Theorem C09_media_type_tables :
+  subject_tables_agree = true /\
+  map kind_has_subject [0; 1; 2; 3; 4; 5] = [false; true; false; true; false; true] /\
+  map is_manifest_kind [0; 1; 2; 3; 4; 5] = [false; true; true; true; true; true].
+Proof. exact media_type_tables_final. Qed.
+Print Assumptions C09_media_type_tables.
+
+(* Delete and GC hold the store's write lock for their whole body, every other operation the
+   read lock (regenerated call sequences): the justification of "sequential histories" --
+   under sync.RWMutex no other operation of the store overlaps a Delete or a GC *)
+Theorem C09_lock_discipline : lock_discipline = true.
+Proof. exact lock_discipline_final. Qed.
+Print Assumptions C09_lock_discipline.
+
+(* ---- the graph abstraction ---- *)
+
+(* The C09 model represents graph.Memory by its node set and derives predecessors and
+   danglings from it.  This is sound for the concrete model of internal/graph/memory.go
+   (Model/GraphMem.v, property C07: nodes, predecessors map, successors map, Index and Remove
+   statement by statement): on every concrete state with C07's representation invariant
+   (proved there for all histories) Predecessors, the danglings Remove reports -- for every
+   iteration order of the successor set -- and the node sets after Remove and index are
+   exactly what the C09 model computes ([absn] = the node set, keys N there, nat here). *)
+Theorem C09_graph_abstraction :
+  forall (succ : nat -> list nat) (g : GraphMem.graph),
+  Proofs.GraphMem.Inv (OciGCGraph.contentN succ) g ->
+  (forall n p, In p (GraphMem.predecessors g n) <->
+               In (N.to_nat p) (preds succ (OciGCGraph.absn g) (N.to_nat n))) /\
+  (forall n order, Permutation.Permutation order (GraphMem.getd (GraphMem.g_succs g) n) ->
+     Proofs.GraphMem.Inv (OciGCGraph.contentN succ) (fst (GraphMem.remove_ord g n order)) /\
+     (forall d, In d (snd (GraphMem.remove_ord g n order)) <->
+                In (N.to_nat d) (danglings succ (OciGCGraph.absn g) (N.to_nat n))) /\
+     (forall x, In x (OciGCGraph.absn (fst (GraphMem.remove_ord g n order))) <->
+                In x (removeb (N.to_nat n) (OciGCGraph.absn g)))) /\
+  (forall n x, In x (OciGCGraph.absn (GraphMem.index g n (OciGCGraph.contentN succ n))) <->
+               x = N.to_nat n \/ In x (OciGCGraph.absn g)).
+Proof. exact OciGCGraph.graph_bridge_final. Qed.
+Print Assumptions C09_graph_abstraction.
+
 (* ---- the hypotheses are satisfiable on non-trivial instances ---- *)
 Example C09_hyps_satisfiable : acyclic succ_w /\ subject_listed succ_w subject_w.
 Proof. exact hyps_satisfiable. Qed.
@@ -279,3 +539,15 @@ Example C09_example_delete :
   blobs (fst (step succ_w subject_w manifest_w cfg_fixed false st (ODelete 1))) = [7; 5; 0] /\
   snd (step succ_w subject_w manifest_w cfg_fixed false st (ODelete 1)) = Ok.
 Proof. exact example_delete. Qed.
+
+Example C09_example_cancel_resume :
+  blobs (mem (prun_w (cancel_pre ++ [PGCCancel false cancel_order 1]))) = [7; 2; 1; 0] /\
+  snd (pstep succ_w subject_w manifest_w cfg_fixed true (prun_w cancel_pre) (PGCCancel false cancel_order 1)) = ECanceled /\
+  blobs (mem (prun_w (cancel_pre ++ [PGCCancel false cancel_order 3]))) = [2; 1; 0] /\
+  blobs (mem (prun_w (cancel_pre ++ [PGCCancel false cancel_order 1; PO OGC]))) = [2; 1; 0] /\
+  blobs (mem (prun_w (cancel_pre ++ [PO OGC]))) = [2; 1; 0] /\
+  disk (prun_w (cancel_pre ++ [PGCCancel false cancel_order 1])) = disk (prun_w (cancel_pre ++ [PO OGC])).
+Proof. exact example_cancel_resume. Qed.
+
+Example C09_example_pstate_ok : pstate_ok (prun_w (cancel_pre ++ [PGCCancel false cancel_order 1])).
+Proof. exact example_pstate_ok. Qed.
